@@ -31,7 +31,8 @@ MANIFEST = {
             '(located by pattern at run time), while running, racing the '
             'exit and after it; run-time limits race the exit; launching '
             'fails at each step of _handle_task.'
-            '  Second session: endings include death by signal; launching also fails right after the spawn (run-time limit registration) and the kill command of the late cancel check can fail inside the work routine.',
+            '  Second session: endings include death by signal; launching also fails right after the spawn (run-time limit registration) and the kill command of the late cancel check can fail inside the work routine.'
+            "  Third session: tasks with a start-up limit whose 'started' reports arrive in one burst; the executor's watcher threads must be alive at the end of every history (executor-thread-died).",
     'note': 'observes real threads: a history is reproduced by seed only '
             'statistically (replay re-runs it several times); the 1 s idle '
             'sleep of the timeout watcher is shortened to 20 ms; wall clock '
@@ -70,6 +71,17 @@ def judge(sim, rec, res, case):
 
     serial = any('serialize' in e for e in sim.loop_errors) or \
              any('serialize' in e[2] for e in sim.env.net.errors)
+
+    # the process watcher and the timeout watcher are needed for every later
+    # task: one which ended (an exception nobody caught) leaves tasks behind
+    dead = sim.dead_threads()
+    res.count('watcher_liveness_checks')
+    if dead:
+        ctx['thread_errors'] = sim.thread_errors[:3]
+        viol('executor-thread-died', 'thread(s) %s of the executor ended: %s'
+             % (dead, sim.thread_errors[:2]))
+    if 'startup_reported' in sim.hits:
+        res.count('startup_reports_delivered')
 
     for uid, r in rec.items():
         spec = sim.specs[uid]
